@@ -71,9 +71,39 @@ def check_big_image(case):
     return True, [fmt, 'big-image>=%dMiB' % (1 << ((w * h * bpp) >> 20).bit_length() - 1)]
 
 
+def check_concurrent_images(case):
+    """k threads of one process write k different images of one format at the same time; each file must decode to ITS input"""
+    import numpy as np
+    fmt, w, h, k, rounds, base, mul = case['fmt'], case['w'], case['h'], case['k'], case['rounds'], case['base'], case['mul']
+    magic, bpp, ranges, flip, line3 = FMT[fmt]
+    sel = sum(b - a for a, b in ranges)
+    with tempfile.TemporaryDirectory(dir=OUT) as d:
+        prefix = os.path.join(d, 'img')
+        rc, err = run_shim('images2 %s %d %d %s %d %d %d %d\n' % (fmt, w, h, prefix, k, rounds, base, mul), d)
+        if rc != 0:
+            raise Violation('shim exit status %d for %d concurrent %s %dx%d: %s' % (rc, k, fmt, w, h, err[-1500:]))
+        header = magic + b'\n' + b'%d %d' % (w, h) + b'\n' + line3 + b'\n'
+        for t in range(k):
+            data = open('%s.%d' % (prefix, t), 'rb').read()
+            if not data.startswith(header) or len(data) != len(header) + w * h * sel + 1:
+                raise Violation('%d concurrent writers, %s %dx%d, file %d: header or length wrong (%d bytes)' % (k, fmt, w, h, t, len(data)))
+            words = ((base + t * 977 + np.arange(w * h * bpp // 4, dtype=np.uint64) * np.uint64(mul)) & np.uint64(0xFFFFFFFF)).astype('<u4')
+            px = words.view(np.uint8).reshape(h, w, bpp)
+            if flip:
+                px = px[::-1]
+            want = np.concatenate([px[:, :, a:b] for a, b in ranges], axis=2).reshape(-1)
+            got = np.frombuffer(data, dtype=np.uint8, count=w * h * sel, offset=len(header))
+            if not np.array_equal(want, got):
+                nbad = int(np.count_nonzero(want != got))
+                raise Violation('%d threads writing %s %dx%d images at the same time: file %d differs from its input in %d bytes' % (k, fmt, w, h, t, nbad))
+    return True, [fmt, 'concurrent-writers', 'row>64KiB' if w * sel > 65536 else 'row<=64KiB']
+
+
 def check_image(case):
     if case.get('kind') == 'big':
         return check_big_image(case)
+    if case.get('kind') == 'concurrent':
+        return check_concurrent_images(case)
     fmt, w, h, pix = case['fmt'], case['w'], case['h'], bytes.fromhex(case['pixels'])
     magic, bpp, ranges, flip, line3 = FMT[fmt]
     assert len(pix) == w * h * bpp
@@ -208,7 +238,7 @@ def check_trace(case):
     if case.get('kind') == 'steer':
         return check_steer(case)
     threads = case['threads']
-    lines = ['trace %%OUT%% %d %d %d %d' % (case['pname'], 1 if case['main'] else 0, len(threads), case.get('locale', 0))]
+    lines = ['trace %%OUT%% %d %d %d %d %d' % (case['pname'], 1 if case['main'] else 0, len(threads), case.get('locale', 0), case.get('atexit', 0))]
     for t in threads:
         lines.append('thread %d %d' % (t['name'], len(t['events'])))
         for e in t['events']:
@@ -272,6 +302,8 @@ def check_trace(case):
         labels.append('nested')
     if case.get('locale', 0):
         labels.append('global-locale-with-grouping')
+    if case.get('atexit', 0):
+        labels.append('saved-from-an-atexit-handler')
     nontrivial = len([t for t in threads if t['events']]) >= 2 or chunk or maxdepth >= 2
     return nontrivial, labels
 
@@ -303,6 +335,11 @@ def campaign(which):
 
         @st.composite
         def cases(draw):
+            if draw(st.integers(0, 99)) < 3:
+                fmt = draw(st.sampled_from(sorted(FMT)))
+                w = draw(st.sampled_from([64, 4097, 8192, 21846, 32768, 70001]))
+                return dict(kind='concurrent', fmt=fmt, w=w, h=draw(st.integers(1, 3)), k=draw(st.integers(2, 4)), rounds=draw(st.sampled_from([1, 5, 20])),
+                            base=draw(st.integers(0, 2 ** 32 - 1)), mul=draw(st.sampled_from([2654435761, 40503, 1])))
             if draw(st.integers(0, 99)) < (3 if not thorough else 1):
                 fmt, w, h = draw(st.sampled_from(BIG))
                 return dict(kind='big', fmt=fmt, w=w, h=h, base=draw(st.integers(0, 2 ** 32 - 1)), mul=draw(st.sampled_from([2654435761, 40503, 1, 0x01010101 + 2])))
@@ -387,7 +424,7 @@ def campaign(which):
                         else:
                             evs.append(['I', (a + j) % len(NAMES), b])
                 threads.append(dict(name=names[i] if draw(st.booleans()) else -1, events=evs))
-            return dict(pname=draw(st.integers(-1, len(PNAMES) - 1)), main=draw(st.booleans()), threads=threads, locale=draw(st.sampled_from([0, 0, 0, 1, 2])))
+            return dict(pname=draw(st.integers(-1, len(PNAMES) - 1)), main=draw(st.booleans()), threads=threads, locale=draw(st.sampled_from([0, 0, 0, 1, 2])), atexit=draw(st.sampled_from([0, 0, 1])))
         max_examples = int(300 * scale)
 
     def body(case):
